@@ -308,7 +308,7 @@ SubImpl(v, n, wrapped) ==
       by   == WrapYear(t \div 12)
       base == IF t % 12 = 0 THEN <<by - 1, 12>> ELSE <<by, t % 12>>
       r    == AddClock(Val("dt", base[1], base[2], 1, 0, 0, 0), IF wrapped THEN WrappedClock(e) ELSE <<e, 0, 0>>)
-  IN Val(v.k, WrapYear(r.y), r.m, r.d, v.sod, v.ns, v.off)
+  IN Val(v.k, WrapYear(r.y), r.m, r.d, v.sod, v.ns, 0)
 DevSubOverflow(v, n) ==
   LET e == v.d - 1 - n + SubBorrow(v, n)
       t == v.y * 12 + v.m
@@ -323,7 +323,14 @@ DevSubOverflow(v, n) ==
 \* takes the clock modulo 24h, so the borrowed day is lost: the result is one day late.
 DevSubBorrow(v, n) ==
   IF "sub_days_borrow_lost" \in Deviations /\ SubBorrow(v, n) = 1 /\ ~Overflows(v.d - n)
-  THEN Dev("sub_days_borrow_lost", AddDays(v, 1 - n)) ELSE <<>>
+  THEN Dev("sub_days_borrow_lost", [AddDays(v, 1 - n) EXCEPT !.off = 0]) ELSE <<>>
+
+\* "sub_span_drops_zone": `datetime - span` converts the value to a span and back, and the way back
+\* always uses the local time zone (UTC in the harness): the wall clock is kept, the instant is not.
+\* (The other deviations of the subtraction path therefore predict offset 0 as well.)
+DevSubZone(v, ymd) ==
+  IF "sub_span_drops_zone" \in Deviations /\ v.off # 0
+  THEN Dev("sub_span_drops_zone", Val(v.k, ymd[1], ymd[2], ymd[3], v.sod, v.ns, 0)) ELSE <<>>
 
 \* "sub_negative_month_index": `value - span` rebuilds the date from a month index with truncated
 \* division; a negative index that is not a multiple of 12 yields an unrelated date.
@@ -417,7 +424,8 @@ MinusDays ==
   /\ Walking
   /\ \E n \in DaySpans :
        Step("sub_days", <<n>>, {AddDays(cur, 0 - n)},
-            DevYearWrap(cur, CivilFromDays(Days(cur) - n)) \o DevSubNegative(cur, 0) \o DevSubOverflow(cur, n) \o DevSubBorrow(cur, n))
+            DevYearWrap(cur, CivilFromDays(Days(cur) - n)) \o DevSubNegative(cur, 0) \o DevSubOverflow(cur, n) \o DevSubBorrow(cur, n)
+              \o DevSubZone(cur, CivilFromDays(Days(cur) - n)))
 
 \* the same operations reached through dynamic dispatch (the span is typed Date::Span | Time::Span)
 PlusDaysDyn ==
@@ -440,7 +448,7 @@ MinusMonths ==
        Step("sub_months", <<k>>, AddMonthsAlts(cur, 0 - k),
             (LET ym == MonthTarget(cur, 0 - k)
                  ro == CivilFromDays(DaysFromCivil(ym[1], ym[2], 1) + cur.d - 1)
-             IN DevYearWrap(cur, ro)) \o DevSubNegative(cur, k))
+             IN DevYearWrap(cur, ro) \o DevSubZone(cur, ro)) \o DevSubNegative(cur, k))
 
 PlusYears ==
   /\ Walking
@@ -454,7 +462,7 @@ MinusYears ==
        Step("sub_years", <<k>>, AddMonthsAlts(cur, 0 - 12 * k),
             (LET ym == MonthTarget(cur, 0 - 12 * k)
                  ro == CivilFromDays(DaysFromCivil(ym[1], ym[2], 1) + cur.d - 1)
-             IN DevYearWrap(cur, ro)) \o DevSubNegative(cur, 12 * k))
+             IN DevYearWrap(cur, ro) \o DevSubZone(cur, ro)) \o DevSubNegative(cur, 12 * k))
 
 PlusClock ==
   /\ Walking /\ cur.k = "dt"
